@@ -109,6 +109,9 @@ def model_check(module, cfg, workers=8, timeout=1800, coverage=True, simulate=No
     mt = re.search(r"Error: Temporal properties were violated", out)
     if mt:
         violated = "temporal"
+    mp = re.search(r"Error: Temporal property (\w+) was violated", out)
+    if mp:
+        violated = mp.group(1)
     ma = re.search(r"Error: Action property (\w+)", out)
     if ma:
         violated = ma.group(1)
